@@ -697,6 +697,34 @@ impl<'ast, 's> Visit<'ast> for FormatPass<'s> {
     }
 }
 
+// ---------------------------------------------------------------- N21 for -> while let
+struct ForToWhilePass<'s> {
+    src: &'s str,
+    edits: Vec<Edit>,
+    k: usize,
+}
+impl<'ast, 's> Visit<'ast> for ForToWhilePass<'s> {
+    fn visit_expr_for_loop(&mut self, l: &'ast syn::ExprForLoop) {
+        let start = match &l.label { Some(lb) => range(lb.span()).start, None => range(l.for_token.span()).start };
+        let body_open = range(l.body.brace_token.span.open()).start;
+        let body_close = range(l.body.brace_token.span.close()).end;
+        let pat = &self.src[range(l.pat.span())];
+        let it = &self.src[range(l.expr.span())];
+        // an array literal iterated by value (no vstd spec for core::array::IntoIter): its elements, in order, through a stand-in
+        let arr;
+        let it = if let syn::Expr::Array(a) = &*l.expr {
+            arr = format!("verif_array_iter(vec![{}])", a.elems.iter().map(|e| &self.src[range(e.span())]).collect::<Vec<_>>().join(", "));
+            arr.as_str()
+        } else { it };
+        let label = match &l.label { Some(lb) => format!("{} ", &self.src[range(lb.span())]), None => String::new() };
+        let k = self.k;
+        self.k += 1;
+        self.edits.push(Edit { start, end: body_open, text: format!("{{ let mut verif_it_{k} = {it}; {label}while let Some({pat}) = verif_it_{k}.next() "), rule: "N21" });
+        self.edits.push(Edit { start: body_close, end: body_close, text: " }".into(), rule: "N21" });
+        visit::visit_expr_for_loop(self, l);
+    }
+}
+
 // ---------------------------------------------------------------- driver
 
 pub fn normalize(
@@ -903,6 +931,14 @@ pub fn normalize(
             bump(fired, "N15", p.edits.len());
             text = apply_edits(&text, p.edits);
         }
+    }
+    // N21
+    if spec.for_to_while {
+        let f = parse(&text, "N15")?;
+        let mut p = ForToWhilePass { src: &text, edits: vec![], k: 0 };
+        p.visit_file(&f);
+        bump(fired, "N21", p.edits.len() / 2);
+        text = apply_zero_width_safe(&text, p.edits);
     }
     // N14
     if spec.abort_on_panic {
